@@ -562,6 +562,52 @@ func gen(repo string, w *bytes.Buffer) error {
 		fmt.Fprintf(w, "Definition pubkey_file_candidates : list str := %s.\n\n", tutil.CoqTextList(cands))
 	}
 
+	// ---------------- gensign/regular/conf.go ----------------
+	{
+		defValidity := int64(0)
+		var tags [][2]string
+		var defaults [][2]string
+		if _, f, err := tutil.ParseFile(repo, "gensign/regular/conf.go"); err != nil {
+			note("gensign/regular/conf.go: %v", err)
+		} else {
+			ints, _ := tutil.ConstValues(f)
+			if st := tutil.FindStruct(f, "conf"); st != nil {
+				for _, fl := range st.Fields.List {
+					tag, _ := tutil.StructTag(fl.Tag, "mapstructure")
+					for _, n := range fl.Names {
+						tags = append(tags, [2]string{n.Name + " " + ex(fl.Type), tag})
+					}
+				}
+			} else {
+				note("struct conf not found")
+			}
+			if fd := tutil.FindFunc(f, "newDefaultConf"); fd != nil {
+				walk(fd, func(n ast.Node) bool {
+					if cl, ok := n.(*ast.CompositeLit); ok && ex(cl.Type) == "conf" {
+						for _, el := range cl.Elts {
+							if kv, ok := el.(*ast.KeyValueExpr); ok {
+								defaults = append(defaults, [2]string{ex(kv.Key), ex(kv.Value)})
+								if ex(kv.Key) == "CertValiditySec" {
+									if v, ok := tutil.EvalInt(kv.Value, 0, ints); ok {
+										defValidity = v
+									}
+								}
+							}
+						}
+					}
+					return true
+				})
+			}
+			if defValidity == 0 {
+				note("newDefaultConf: default validity not recognised")
+			}
+		}
+		fmt.Fprintf(w, "(* gensign/regular/conf.go *)\n")
+		fmt.Fprintf(w, "Definition conf_fields : list (str * str) := %s.\n", pairList(tags))
+		fmt.Fprintf(w, "Definition conf_defaults : list (str * str) := %s.\n", pairList(defaults))
+		fmt.Fprintf(w, "Definition default_cert_validity_sec : N := %d%%N.\n\n", defValidity)
+	}
+
 	// ---------------- agent/ssh/opt.go, key.go, agent.go ----------------
 	{
 		fmt.Fprintf(w, "(* agent/ssh *)\n")
